@@ -32,9 +32,13 @@ for d in sorted(glob.glob(os.path.join(ROOT, "seeded", "C*-*"))):
         continue
     prop = meta["property"]
     t0 = time.time()
-    p = subprocess.run([os.path.join(ROOT, "tools", "seedcheck.sh"), prop, os.path.join(d, "patch.diff")],
-                       capture_output=True, text=True)
-    out = p.stdout + p.stderr
+    for attempt in range(3):
+        p = subprocess.run([os.path.join(ROOT, "tools", "seedcheck.sh"), prop, os.path.join(d, "patch.diff")],
+                           capture_output=True, text=True)
+        out = p.stdout + p.stderr
+        if "PATCH DOES NOT APPLY" in out or any(l.startswith("check ") for l in out.splitlines()):
+            break
+        time.sleep(5)      # the check never ran (e.g. git worktree lock contention): retry
     viol = [l for l in out.splitlines() if l.startswith("VIOLATION")]
     summ = [l for l in out.splitlines() if l.startswith("check ")]
     problems = [l.strip() for l in out.splitlines() if l.startswith("  [")]
@@ -42,6 +46,9 @@ for d in sorted(glob.glob(os.path.join(ROOT, "seeded", "C*-*"))):
         r = "patch-does-not-apply"
     elif viol:
         r = "caught-no-failing-input" if "no-failing-input-found" in viol[0] else "caught-concrete-input"
+    elif not summ:
+        r = "run-error"
+        problems = out.splitlines()[-5:]
     else:
         r = "MISSED"
     kind = None
